@@ -182,14 +182,19 @@ def run(ctx, log):
                 exp = subst(f, [display(k, v) for (_, k, v) in args]) + "\n"
                 cases.append(("print(%s)" % ", ".join([nlast.quote(f)] + [a[0] for a in args]), ("OUT", exp), "print/%d" % (n + 1)))
     cases.append(('print("{} {}", "{}", "x")', ("OUT", "{} x\n"), "print/rescan"))
+    cases.append(('functie p(x) { print("p {}", x); x } print("{} {} {}", p(1), p(2), p(3))', ("OUT", "p 1\np 2\np 3\n1 2 3\n"), "print/argument-order"))
+    cases.append(('stel n = 0; functie tel() { n = n + 1; n } print("{} {} {}", tel(), tel(), tel())', ("OUT", "1 2 3\n"), "print/argument-order"))
+    cases.append(('print("{} {}", 1 / 0, [1][5])', "ERR Type", "print/error-order"))
+    cases.append(('print("{} {}", [1][5], 1 / 0)', "ERR Index", "print/error-order"))
+    cases.append(('functie p(x) { print("p {}", x); x } lengte(p("ab"), p(2))', "ERR Argument", "arity/argument-order"))
     cases.append(('print(1, 2)', ("OUT", "1\n"), "print/nonstring-format"))
     cases.append(('print([1, "{}"], 5)', ("OUT", "[1, 5]\n"), "print/array-format"))
     # round trips
-    ints = int_lattice() + [rand_int(rng) for _ in range(200 if ctx.quick else 5000)]
+    ints = int_lattice() + [rand_int(rng) for _ in range(200 if ctx.quick else 1500)]
     for z in ints:
         src = str(z) if z >= 0 else ("(0 - %d)" % -z if z != MIN_INT else "(0 - %d - 1)" % MAX_INT)
         cases.append(("int(string(%s))" % src, "OK i%d" % z, "roundtrip/int"))
-    for _ in range(300 if ctx.quick else 5000):
+    for _ in range(300 if ctx.quick else 1200):
         x = struct.unpack(">d", struct.pack(">Q", rng.getrandbits(64)))[0]
         if x != x or x in (math.inf, -math.inf):
             continue
